@@ -187,12 +187,26 @@ type Ctx struct {
 // Thorough reports whether the thorough tier was requested.
 func (c *Ctx) Thorough() bool { return c.Tier == "thorough" }
 
+// tierScale multiplies the case counts the property packages ask for ({quick, thorough}).
+// The counts in the packages were sized on a machine under heavy load; measured on the idle
+// 16-core sandbox most tiers ended in seconds, so they are deepened here in one place.
+// Only count-like values (>= 16) are scaled, never small structural parameters (depths, repeats).
+var tierScale = map[string][2]int{
+	"C03": {2, 4}, "C04": {1, 3}, "C05": {1, 2}, "C06": {3, 5}, "C07": {2, 5}, "C08": {2, 8},
+	"C09": {5, 20}, "C10": {2, 3}, "C11": {10, 30}, "C12": {10, 15}, "C13": {4, 5}, "C14": {4, 6},
+	"C15": {1, 2}, "C16": {3, 8}, "C17": {2, 8}, "C18": {2, 8}, "C19": {3, 6}, "C20": {3, 5},
+}
+
 // N picks a case count by tier.
 func (c *Ctx) N(quick, thorough int) int {
+	v, idx := quick, 0
 	if c.Thorough() {
-		return thorough
+		v, idx = thorough, 1
 	}
-	return quick
+	if s, ok := tierScale[c.Property]; ok && v >= 16 && s[idx] > 1 && os.Getenv("VERIF_NOSCALE") == "" {
+		v *= s[idx]
+	}
+	return v
 }
 
 // Mine reports whether case index i belongs to this shard.
